@@ -20,12 +20,15 @@ TraceInit ==
      /\ cfg = [failAt |-> TraceLog[t].p.failAt, ab |-> TraceLog[t].p.ab]
      /\ cycle = 1 /\ phase = "idle" /\ spc = "enter" /\ k = 0
      /\ w = [i \in Wk |-> "none"] /\ wleft = [i \in Wk |-> 0]
-     /\ buf = <<>> /\ pin = <<>> /\ pout = <<>> /\ ob = "off" /\ obx = "none" /\ g = "off"
+     /\ buf = <<>> /\ pin = <<>> /\ pout = <<>> /\ ob = "off" /\ obx = "none" /\ g = "off" /\ led = 0
      /\ TLCSet(t, <<1, "init", "none">>)
 
 TEntered     == Is("Entered") /\ phase = "running" /\ E.alive = Cardinality(Alive) /\ Same /\ Adv
 TEnterFailed == Is("EnterFailed") /\ phase = "enterfailed" /\ E.procs = Cardinality(Alive) /\ E.threads = 0 /\ Same /\ Adv
-TExited      == Is("Exited") /\ phase = "exited" /\ E.procs = 0 /\ E.threads = 0 /\ Same /\ Adv
+\* `server.backlog` observed after exit is the model's ledger
+TExited      == /\ Is("Exited") /\ phase = "exited" /\ E.procs = 0 /\ E.threads = 0
+                /\ E.backlog = led
+                /\ Same /\ Adv
 TReenter     == Is("Reenter") /\ Reenter /\ Adv
 TSilent == /\ \/ Enter \/ Spawn \/ Await \/ Cleanup \/ CleanJoin \/ EnterRaise \/ Helpers
               \/ ObGet \/ ObPut \/ Gather \/ GatherRelease
@@ -35,7 +38,8 @@ TSilent == /\ \/ Enter \/ Spawn \/ Await \/ Cleanup \/ CleanJoin \/ EnterRaise \
 TraceNext == TEntered \/ TEnterFailed \/ TExited \/ TReenter \/ TSilent
 TraceSpec == TraceInit /\ [][TraceNext]_tvars
 
-FailedInv == IF ~AllOrNothing THEN "AllOrNothing" ELSE IF ~ExitComplete THEN "ExitComplete" ELSE "none"
+FailedInv == IF ~AllOrNothing THEN "AllOrNothing" ELSE IF ~ExitComplete THEN "ExitComplete"
+             ELSE IF ~LedgerEmptyAfterExit THEN "LedgerEmptyAfterExit" ELSE "none"
 Progress ==
   IF FailedInv # "none"
     THEN TLCSet(tid, <<TLCGet(tid)[1], TLCGet(tid)[2], FailedInv>>) /\ FALSE
